@@ -10,6 +10,7 @@ from ..gen import exprs as X
 
 PROPERTY = "C02"
 LEVEL = "exploration"
+USES_REFERENCE_MODELS = True
 RULE = ("case = generated program (multi-statement lines; IF in its three forms with line-number and statement arms, nested in "
         "THEN and ELSE, ELSE IF chains of length 1-3 with and without final ELSE; FOR/NEXT with positive, negative, fractional "
         "STEP, bare NEXT, NEXT I, NEXT J,I, nested to depth 3, on one line and across lines; forward GOTO and counter-guarded "
